@@ -34,6 +34,7 @@ better results. For optimal solutions on small instances, use MILP instead.
 """
 
 from collections.abc import Sequence
+from fractions import Fraction
 
 from solvor.types import Result, Status
 from solvor.utils import check_positive
@@ -78,17 +79,25 @@ def solve_bin_pack(
     else:
         indices = list(range(n))
 
+    # Loads are compared exactly: a size is read as the decimal number it prints as (0.1 + 0.2 fits 0.3 exactly),
+    # so neither float residue nor a tolerance decides whether an item fits
+    def exact(x) -> Fraction:
+        return Fraction(x) if isinstance(x, int) else Fraction(str(x))
+
+    exact_sizes = [exact(s) for s in item_sizes]
+    exact_capacity = exact(bin_capacity)
+
     # Bins: list of (remaining_capacity, [item_indices])
-    bins: list[tuple[float, list[int]]] = []
+    bins: list[tuple[Fraction, list[int]]] = []
     assignments = [0] * n  # assignments[item] = bin_index
 
     for item_idx in indices:
-        size = item_sizes[item_idx]
+        size = exact_sizes[item_idx]
 
         if size == 0:
             # Zero-size items go in first bin (or create one)
             if not bins:
-                bins.append((bin_capacity, []))
+                bins.append((exact_capacity, []))
             bins[0][1].append(item_idx)
             assignments[item_idx] = 0
             continue
@@ -99,20 +108,20 @@ def solve_bin_pack(
             # Find bin with least remaining space that still fits
             best_remaining = float("inf")
             for b, (remaining, _) in enumerate(bins):
-                if size <= remaining + 1e-9 and remaining < best_remaining:
+                if size <= remaining and remaining < best_remaining:
                     best_remaining = remaining
                     best_bin = b
         else:
             # First-fit: find first bin that fits
             for b, (remaining, _) in enumerate(bins):
-                if size <= remaining + 1e-9:
+                if size <= remaining:
                     best_bin = b
                     break
 
         if best_bin == -1:
             # Open new bin
             best_bin = len(bins)
-            bins.append((bin_capacity, []))
+            bins.append((exact_capacity, []))
 
         # Place item in bin
         remaining, items = bins[best_bin]
